@@ -103,12 +103,35 @@ func ParseBehaviours(data []byte, maximalOnly bool) ([]Behaviour, error) {
 		}
 		return []Behaviour{o.Data}, nil
 	}
-	var prev Behaviour
-	var havePrev bool
+	// TLC's simulator evaluates the exporting action constraint for every candidate successor of every step, so a
+	// simulation dump holds, per simulated behaviour, all one-step alternatives of all its prefixes. Only the complete
+	// behaviours are wanted: lines are grouped per simulation (a line of length 1 after longer ones starts a new one) and
+	// of each group the longest lines are kept (the alternatives of the last step; at most keepPerGroup of them).
+	const keepPerGroup = 2
+	var group []Behaviour
 	flush := func() {
-		if havePrev {
-			out = append(out, prev)
+		if len(group) == 0 {
+			return
 		}
+		if !maximalOnly {
+			out = append(out, group...)
+			group = nil
+			return
+		}
+		max := 0
+		for _, b := range group {
+			if len(b) > max {
+				max = len(b)
+			}
+		}
+		kept := 0
+		for i := len(group) - 1; i >= 0 && kept < keepPerGroup; i-- {
+			if len(group[i]) == max {
+				out = append(out, group[i])
+				kept++
+			}
+		}
+		group = nil
 	}
 	for _, line := range bytes.Split(data, []byte("\n")) {
 		line = bytes.TrimSpace(line)
@@ -133,17 +156,10 @@ func ParseBehaviours(data []byte, maximalOnly bool) ([]Behaviour, error) {
 		if err := json.Unmarshal([]byte(inner), &b); err != nil {
 			return nil, fmt.Errorf("bad behaviour line: %w", err)
 		}
-		if maximalOnly && havePrev && len(b) == len(prev)+1 {
-			// b extends prev (simulation emits growing prefixes)
-			prev = b
-			continue
-		}
-		flush()
-		prev, havePrev = b, true
-		if !maximalOnly {
+		if maximalOnly && len(b) == 1 && len(group) > 0 && len(group[len(group)-1]) > 1 {
 			flush()
-			havePrev = false
 		}
+		group = append(group, b)
 	}
 	flush()
 	return out, nil
